@@ -1,5 +1,557 @@
-import IndicatorVerif.Model.Registry
-/- C03 — theorems under construction -/
+import IndicatorVerif.Model.Net
+import IndicatorVerif.Model.NetMachines
+/-
+  C03 — schedule independence of process networks (the class every pipeline belongs to).
+
+  * `diamond`        two different processes that can both move commute (one reader and one writer per channel);
+  * `determinacy`    if ONE schedule reaches a terminal state, EVERY schedule can be extended to that same state and
+                     none is longer: the terminal state — every process's local state (hence every value emitted, in
+                     order), every queue, and whether it is a clean termination or a deadlock — does not depend on
+                     the interleaving, the number of OS threads or the pacing of producers and consumers (which are
+                     processes of the network);
+  * `capacity_mono`  a run with small channel capacities is also a run (up to hand-over waits) with larger ones:
+                     a clean termination observed with unbuffered inputs holds for every larger buffering.
+  What is NOT proved: that each concrete pipeline terminates cleanly for every configuration and length; that is
+  explored by running the Go pipelines (one schedule suffices by `determinacy`, unbuffered inputs by `capacity_mono`).
+-/
 namespace C03
-theorem placeholder_true : True := trivial
+open Net
+
+variable {L V : Type}
+
+theorem upd_same {α : Type} (f : Nat → α) (i : Nat) (v : α) : upd f i v i = v := by simp [upd]
+theorem upd_other {α : Type} (f : Nat → α) (i j : Nat) (v : α) (h : j ≠ i) : upd f i v j = f j := by simp [upd, h]
+theorem upd_comm {α : Type} (f : Nat → α) (i j : Nat) (a b : α) (h : i ≠ j) :
+    upd (upd f i a) j b = upd (upd f j b) i a := by
+  funext k; simp only [upd]
+  by_cases h1 : k = j
+  · subst h1
+    have h2 : ¬ k = i := fun e => h e.symm
+    simp [h2]
+  · simp [h1]
+theorem upd_upd {α : Type} (f : Nat → α) (i : Nat) (a b : α) : upd (upd f i a) i b = upd f i b := by
+  funext k; simp only [upd]; by_cases h1 : k = i <;> simp [h1]
+
+/-- one reader and one writer per channel; a process only waits for the hand-over of a channel it writes -/
+structure Owned (N : Network L V) : Prop where
+  recv_owner : ∀ p l c k, N.act p l = .recv c k → N.rd c = p
+  send_owner : ∀ p l c v k, N.act p l = .send c v k → N.wr c = p
+  close_owner : ∀ p l c k, N.act p l = .close c k → N.wr c = p
+
+def WF (N : Network L V) (s : St L V) : Prop := ∀ p c, (s.procs p).2 = some c → N.wr c = p
+
+/-! ### roles -/
+
+theorem reader_owner (N : Network L V) (hO : Owned N) (p : Nat) (ps : PS L) (c : Nat)
+    (hr : (opOf N p ps).isReader = true) (hc : (opOf N p ps).chan = some c) : N.rd c = p := by
+  unfold opOf at hr hc
+  cases hp : ps.2 with
+  | some c' => simp [hp, Op.isReader] at hr
+  | none =>
+    simp only [hp] at hr hc
+    cases ha : N.act p ps.1 with
+    | recv c' k => simp only [ha, Op.chan, Option.some.injEq] at hc; subst hc; exact hO.recv_owner p _ _ _ ha
+    | send c' v k => simp [ha, Op.isReader] at hr
+    | close c' k => simp [ha, Op.isReader] at hr
+    | halt => simp [ha, Op.isReader] at hr
+
+theorem writer_owner (N : Network L V) (hO : Owned N) (p : Nat) (ps : PS L) (c : Nat)
+    (hwf : ∀ c', ps.2 = some c' → N.wr c' = p)
+    (hw : (opOf N p ps).isWriter = true) (hc : (opOf N p ps).chan = some c) : N.wr c = p := by
+  unfold opOf at hw hc
+  cases hp : ps.2 with
+  | some c' => simp only [hp, Op.chan, Option.some.injEq] at hc; subst hc; exact hwf _ hp
+  | none =>
+    simp only [hp] at hw hc
+    cases ha : N.act p ps.1 with
+    | recv c' k => simp [ha, Op.isWriter] at hw
+    | send c' v k => simp only [ha, Op.chan, Option.some.injEq] at hc; subst hc; exact hO.send_owner p _ _ _ _ ha
+    | close c' k => simp only [ha, Op.chan, Option.some.injEq] at hc; subst hc; exact hO.close_owner p _ _ _ ha
+    | halt => simp [ha, Op.isWriter] at hw
+
+theorem role (o : Op L V) (c : Nat) (h : o.chan = some c) : o.isReader = true ∨ o.isWriter = true := by
+  cases o <;> simp [Op.chan, Op.isReader, Op.isWriter] at h ⊢
+
+/-! ### the reader's and the writer's operations on one channel commute -/
+
+theorem fire_comm (cap : Nat) (l1 l2 : L) (r w : Op L V) (hr : r.isReader = true) (hw : w.isWriter = true)
+    (cs cs1 cs2 : CS V) (p1 p2 : PS L)
+    (h1 : r.fire cap l1 cs = some (p1, cs1)) (h2 : w.fire cap l2 cs = some (p2, cs2)) :
+    ∃ cs', r.fire cap l1 cs2 = some (p1, cs') ∧ w.fire cap l2 cs1 = some (p2, cs') := by
+  obtain ⟨q, cl⟩ := cs
+  cases r with
+  | rd c k =>
+    cases w with
+    | snd c' v k' =>
+      cases cl with
+      | true => simp [Op.fire] at h2
+      | false =>
+        cases q with
+        | nil => simp [Op.fire] at h1
+        | cons x rest =>
+          simp only [Op.fire] at h1 h2
+          split at h2
+          · rename_i hlen
+            simp only [Option.some.injEq, Prod.mk.injEq] at h1 h2
+            obtain ⟨rfl, rfl⟩ := h1
+            obtain ⟨rfl, rfl⟩ := h2
+            refine ⟨(rest ++ [v], false), by simp [Op.fire], ?_⟩
+            have : rest.length < max 1 cap := by simp only [List.length_cons] at hlen; omega
+            simp [Op.fire, this]
+          · simp at h2
+    | cls c' k' =>
+      cases cl with
+      | true => simp [Op.fire] at h2
+      | false =>
+        cases q with
+        | nil => simp [Op.fire] at h1
+        | cons x rest =>
+          simp only [Op.fire, Option.some.injEq, Prod.mk.injEq] at h1 h2
+          obtain ⟨rfl, rfl⟩ := h1
+          obtain ⟨rfl, rfl⟩ := h2
+          exact ⟨(rest, true), by simp [Op.fire], by simp [Op.fire]⟩
+    | sync c' =>
+      cases q with
+      | cons x rest => simp [Op.fire] at h2
+      | nil =>
+        cases cl with
+        | false => simp [Op.fire] at h1
+        | true =>
+          simp only [Op.fire, Option.some.injEq, Prod.mk.injEq] at h1 h2
+          obtain ⟨rfl, rfl⟩ := h1
+          obtain ⟨rfl, rfl⟩ := h2
+          exact ⟨([], true), by simp [Op.fire], by simp [Op.fire]⟩
+    | rd _ _ => simp [Op.isWriter] at hw
+    | halt => simp [Op.isWriter] at hw
+  | snd _ _ _ => simp [Op.isReader] at hr
+  | cls _ _ => simp [Op.isReader] at hr
+  | sync _ => simp [Op.isReader] at hr
+  | halt => simp [Op.isReader] at hr
+
+theorem fire_rd_cap (cap cap' : Nat) (l : L) (c : Nat) (k : Option V → L) (cs : CS V) :
+    (Op.rd c k : Op L V).fire cap l cs = (Op.rd c k : Op L V).fire cap' l cs := by
+  obtain ⟨q, cl⟩ := cs; cases q <;> cases cl <;> rfl
+
+theorem fire_cls_cap (cap cap' : Nat) (l : L) (c : Nat) (k : L) (cs : CS V) :
+    (Op.cls c k : Op L V).fire cap l cs = (Op.cls c k : Op L V).fire cap' l cs := by
+  obtain ⟨q, cl⟩ := cs; cases cl <;> rfl
+
+/-! ### steps -/
+
+theorem step_some (N : Network L V) (p : Nat) (s s' : St L V) (h : step N p s = some s') :
+    ∃ c ps' cs', (opOf N p (s.procs p)).chan = some c ∧
+      (opOf N p (s.procs p)).fire (N.cap c) (s.procs p).1 (s.chans c) = some (ps', cs') ∧
+      s' = ⟨upd s.procs p ps', upd s.chans c cs'⟩ := by
+  unfold step at h
+  split at h
+  · simp at h
+  · rename_i c hc
+    split at h
+    · simp at h
+    · rename_i ps' cs' hf
+      exact ⟨c, ps', cs', hc, hf, by simpa using h.symm⟩
+
+theorem step_of (N : Network L V) (p : Nat) (s : St L V) (c : Nat) (ps' : PS L) (cs' : CS V)
+    (hc : (opOf N p (s.procs p)).chan = some c)
+    (hf : (opOf N p (s.procs p)).fire (N.cap c) (s.procs p).1 (s.chans c) = some (ps', cs')) :
+    step N p s = some ⟨upd s.procs p ps', upd s.chans c cs'⟩ := by
+  unfold step; simp [hc, hf]
+
+/-- a step keeps the hand-over invariant -/
+theorem step_wf (N : Network L V) (hO : Owned N) (p : Nat) (s s' : St L V) (hW : WF N s)
+    (h : step N p s = some s') : WF N s' := by
+  obtain ⟨c, ps', cs', hc, hf, rfl⟩ := step_some N p s s' h
+  intro q c' hq
+  by_cases hqp : q = p
+  · subst hqp
+    simp only [upd_same] at hq
+    -- the only way to start waiting is a send on an unbuffered channel the process writes
+    unfold opOf at hc hf
+    cases hp : (s.procs q).2 with
+    | some c0 =>
+      simp only [hp] at hc hf
+      rcases hcs : s.chans c with ⟨qq, cl⟩
+      cases qq <;> simp [Op.fire, hcs] at hf
+      obtain ⟨rfl, _⟩ := hf
+      simp at hq
+    | none =>
+      simp only [hp] at hc hf
+      cases ha : N.act q (s.procs q).1 with
+      | recv c1 k =>
+        simp only [ha] at hf
+        rcases hcs : s.chans c with ⟨qq, cl⟩
+        cases qq <;> cases cl <;> simp [Op.fire, hcs] at hf <;> (obtain ⟨rfl, _⟩ := hf; simp at hq)
+      | send c1 v k =>
+        simp only [ha, Op.chan, Option.some.injEq] at hc hf
+        subst hc
+        rcases hcs : s.chans c1 with ⟨qq, cl⟩
+        cases cl
+        · simp only [Op.fire, hcs] at hf
+          split at hf
+          · simp only [Option.some.injEq, Prod.mk.injEq] at hf
+            obtain ⟨rfl, _⟩ := hf
+            simp only at hq
+            split at hq
+            · simp only [Option.some.injEq] at hq; subst hq; exact hO.send_owner q _ _ _ _ ha
+            · simp at hq
+          · simp at hf
+        · simp [Op.fire, hcs] at hf
+      | close c1 k =>
+        simp only [ha] at hf
+        rcases hcs : s.chans c with ⟨qq, cl⟩
+        cases cl <;> simp [Op.fire, hcs] at hf
+        obtain ⟨rfl, _⟩ := hf
+        simp at hq
+      | halt => simp [ha, Op.chan] at hc
+  · simp only [upd_other _ _ _ _ hqp] at hq
+    exact hW q c' hq
+
+/-- **Diamond**: two different processes that can both move commute -/
+theorem diamond (N : Network L V) (hO : Owned N) (s : St L V) (hW : WF N s) (p q : Nat) (hpq : p ≠ q)
+    (s1 s2 : St L V) (h1 : step N p s = some s1) (h2 : step N q s = some s2) :
+    ∃ s', step N q s1 = some s' ∧ step N p s2 = some s' := by
+  obtain ⟨c, ps1, cs1, hc1, hf1, rfl⟩ := step_some N p s s1 h1
+  obtain ⟨d, ps2, cs2, hc2, hf2, rfl⟩ := step_some N q s s2 h2
+  have hqp : q ≠ p := fun h => hpq h.symm
+  by_cases hcd : c = d
+  · subst hcd
+    -- same channel: one is its reader, the other its writer
+    have key : ∀ (p q : Nat) (ps1 ps2 : PS L) (cs1 cs2 : CS V), p ≠ q →
+        (opOf N p (s.procs p)).chan = some c → (opOf N q (s.procs q)).chan = some c →
+        (opOf N p (s.procs p)).fire (N.cap c) (s.procs p).1 (s.chans c) = some (ps1, cs1) →
+        (opOf N q (s.procs q)).fire (N.cap c) (s.procs q).1 (s.chans c) = some (ps2, cs2) →
+        (opOf N p (s.procs p)).isReader = true →
+        ∃ s', step N q ⟨upd s.procs p ps1, upd s.chans c cs1⟩ = some s' ∧
+              step N p ⟨upd s.procs q ps2, upd s.chans c cs2⟩ = some s' := by
+      intro p q ps1 ps2 cs1 cs2 hpq hc1 hc2 hf1 hf2 hr
+      have hqp : q ≠ p := fun h => hpq h.symm
+      have hw : (opOf N q (s.procs q)).isWriter = true := by
+        rcases role _ _ hc2 with h | h
+        · have e1 := reader_owner N hO p _ c hr hc1
+          have e2 := reader_owner N hO q _ c h hc2
+          exact absurd (e1.symm.trans e2) hpq
+        · exact h
+      obtain ⟨cs', g1, g2⟩ := fire_comm (N.cap c) _ _ _ _ hr hw _ _ _ _ _ hf1 hf2
+      refine ⟨⟨upd (upd s.procs p ps1) q ps2, upd s.chans c cs'⟩, ?_, ?_⟩
+      · have := step_of N q ⟨upd s.procs p ps1, upd s.chans c cs1⟩ c ps2 cs'
+          (by simpa [upd_other _ _ _ _ hqp] using hc2)
+          (by simpa [upd_other _ _ _ _ hqp, upd_same] using g2)
+        simpa [upd_upd] using this
+      · have := step_of N p ⟨upd s.procs q ps2, upd s.chans c cs2⟩ c ps1 cs'
+          (by simpa [upd_other _ _ _ _ hpq] using hc1)
+          (by simpa [upd_other _ _ _ _ hpq, upd_same] using g1)
+        rw [upd_comm _ _ _ _ _ hpq]
+        simpa [upd_upd] using this
+    rcases role _ _ hc1 with hr | hw1
+    · exact key p q ps1 ps2 cs1 cs2 hpq hc1 hc2 hf1 hf2 hr
+    · -- p writes, so q must read
+      have hr2 : (opOf N q (s.procs q)).isReader = true := by
+        rcases role _ _ hc2 with h | h
+        · exact h
+        · have e1 := writer_owner N hO p _ c (fun c' h' => hW p c' h') hw1 hc1
+          have e2 := writer_owner N hO q _ c (fun c' h' => hW q c' h') h hc2
+          exact absurd (e1.symm.trans e2) hpq
+      obtain ⟨s', g1, g2⟩ := key q p ps2 ps1 cs2 cs1 hqp hc2 hc1 hf2 hf1 hr2
+      exact ⟨s', g2, g1⟩
+  · -- different channels: nothing either step reads is written by the other
+    have hdc : d ≠ c := fun h => hcd h.symm
+    refine ⟨⟨upd (upd s.procs p ps1) q ps2, upd (upd s.chans c cs1) d cs2⟩, ?_, ?_⟩
+    · exact step_of N q ⟨upd s.procs p ps1, upd s.chans c cs1⟩ d ps2 cs2
+        (by simpa [upd_other _ _ _ _ hqp] using hc2)
+        (by simpa [upd_other _ _ _ _ hqp, upd_other _ _ _ _ hdc] using hf2)
+    · have := step_of N p ⟨upd s.procs q ps2, upd s.chans d cs2⟩ c ps1 cs1
+        (by simpa [upd_other _ _ _ _ hpq] using hc1)
+        (by simpa [upd_other _ _ _ _ hpq, upd_other _ _ _ _ hcd] using hf1)
+      rw [upd_comm _ _ _ _ _ hpq, upd_comm _ _ _ _ _ hcd]
+      exact this
+
+/-! ### runs -/
+
+theorem run_wf (N : Network L V) (hO : Owned N) (t : List Nat) (s s' : St L V) (hW : WF N s)
+    (h : run N t s = some s') : WF N s' := by
+  induction t generalizing s with
+  | nil => simp only [run, Option.some.injEq] at h; subst h; exact hW
+  | cons p t ih =>
+    simp only [run] at h
+    cases hs : step N p s with
+    | none => simp [hs] at h
+    | some a => simp only [hs, Option.bind_some] at h; exact ih a (step_wf N hO p s a hW hs) h
+
+/-- if `p` can move now and some schedule reaches the terminal state `e`, then after `p`'s step a schedule
+    one step shorter reaches `e` -/
+theorem strip (N : Network L V) (hO : Owned N) (t : List Nat) (s a e : St L V) (p : Nat) (hW : WF N s)
+    (hp : step N p s = some a) (hr : run N t s = some e) (hT : Terminal N e) :
+    ∃ t', run N t' a = some e ∧ t'.length + 1 = t.length := by
+  induction t generalizing s a with
+  | nil =>
+    simp only [run, Option.some.injEq] at hr; subst hr
+    rw [hT p] at hp; simp at hp
+  | cons q rest ih =>
+    simp only [run] at hr
+    cases hq : step N q s with
+    | none => simp [hq] at hr
+    | some b =>
+      simp only [hq, Option.bind_some] at hr
+      by_cases hqp : q = p
+      · subst hqp
+        rw [hq] at hp; simp only [Option.some.injEq] at hp; subst hp
+        exact ⟨rest, hr, rfl⟩
+      · obtain ⟨d, h1, h2⟩ := diamond N hO s hW p q (fun h => hqp h.symm) a b hp hq
+        obtain ⟨r', hr', hl⟩ := ih b d (step_wf N hO q s b hW hq) h2 hr
+        refine ⟨q :: r', ?_, by simp [hl]⟩
+        simp [run, h1, hr']
+
+/-- **Determinacy**: if one schedule reaches a terminal state `e`, every other schedule is at most as long and can be
+    continued to `e` -/
+theorem determinacy (N : Network L V) (hO : Owned N) (t1 t2 : List Nat) (s e s2 : St L V) (hW : WF N s)
+    (h1 : run N t1 s = some e) (hT : Terminal N e) (h2 : run N t2 s = some s2) :
+    ∃ t3, run N t3 s2 = some e ∧ t2.length + t3.length = t1.length := by
+  induction t2 generalizing s t1 with
+  | nil => simp only [run, Option.some.injEq] at h2; subst h2; exact ⟨t1, h1, by simp⟩
+  | cons p rest ih =>
+    simp only [run] at h2
+    cases hp : step N p s with
+    | none => simp [hp] at h2
+    | some a =>
+      simp only [hp, Option.bind_some] at h2
+      obtain ⟨t1', hr, hl⟩ := strip N hO t1 s a e p hW hp h1 hT
+      obtain ⟨t3, h3, hl3⟩ := ih t1' a (step_wf N hO p s a hW hp) hr h2
+      exact ⟨t3, h3, by simp only [List.length_cons]; omega⟩
+
+theorem run_terminal_nil (N : Network L V) (t : List Nat) (s e : St L V) (hT : Terminal N s)
+    (h : run N t s = some e) : t = [] ∧ e = s := by
+  cases t with
+  | nil => simp only [run, Option.some.injEq] at h; exact ⟨rfl, h.symm⟩
+  | cons p rest => simp [run, hT p] at h
+
+/-- **Schedule independence**: two schedules that both run to a terminal state end in the same state — the same
+    local state of every process (hence the same values delivered, in the same order), the same queues, the same
+    verdict (clean termination or deadlock) — after the same number of steps -/
+theorem terminal_unique (N : Network L V) (hO : Owned N) (t1 t2 : List Nat) (s e1 e2 : St L V) (hW : WF N s)
+    (h1 : run N t1 s = some e1) (hT1 : Terminal N e1) (h2 : run N t2 s = some e2) (hT2 : Terminal N e2) :
+    e1 = e2 ∧ t1.length = t2.length := by
+  obtain ⟨t3, h3, hl⟩ := determinacy N hO t1 t2 s e1 e2 hW h1 hT1 h2
+  obtain ⟨rfl, rfl⟩ := run_terminal_nil N t3 e2 e1 hT2 h3
+  exact ⟨rfl, by simpa using hl.symm⟩
+
+/-- no schedule runs forever or longer than the one observed: a terminating schedule bounds all others -/
+theorem no_longer_schedule (N : Network L V) (hO : Owned N) (t1 t2 : List Nat) (s e s2 : St L V) (hW : WF N s)
+    (h1 : run N t1 s = some e) (hT : Terminal N e) (h2 : run N t2 s = some s2) : t2.length ≤ t1.length := by
+  obtain ⟨t3, _, hl⟩ := determinacy N hO t1 t2 s e s2 hW h1 hT h2; omega
+
+theorem allHalted_terminal (N : Network L V) (s : St L V) (h : AllHalted N s) : Terminal N s := by
+  intro p
+  obtain ⟨h1, h2⟩ := h p
+  unfold step opOf
+  simp [h1, h2, Op.chan]
+
+/-! ### larger capacities -/
+
+/-- same processes and ownership, pointwise larger capacities -/
+structure Larger (N N' : Network L V) : Prop where
+  act_eq : N'.act = N.act
+  cap_le : ∀ c, N.cap c ≤ N'.cap c
+
+/-- `s'` is `s` except that some processes that wait for a hand-over in `s` do not wait in `s'` -/
+def Rel (s s' : St L V) : Prop :=
+  s'.chans = s.chans ∧ ∀ p, (s'.procs p).1 = (s.procs p).1 ∧ ((s'.procs p).2 = (s.procs p).2 ∨ (s'.procs p).2 = none)
+
+theorem rel_refl (s : St L V) : Rel s s := ⟨rfl, fun _ => ⟨rfl, Or.inl rfl⟩⟩
+
+theorem rel_upd (s s' : St L V) (h : Rel s s') (p c : Nat) (ps ps' : PS L) (cs : CS V)
+    (h1 : ps'.1 = ps.1) (h2 : ps'.2 = ps.2 ∨ ps'.2 = none) :
+    Rel ⟨upd s.procs p ps, upd s.chans c cs⟩ ⟨upd s'.procs p ps', upd s'.chans c cs⟩ := by
+  refine ⟨by simp [h.1], ?_⟩
+  intro q
+  by_cases hq : q = p
+  · subst hq; simp [upd_same, h1, h2]
+  · simp only [upd_other _ _ _ _ hq]; exact h.2 q
+
+/-- every step with the small capacities is a step, or a skipped hand-over wait, with the larger ones -/
+theorem step_sim (N N' : Network L V) (hL : Larger N N') (p : Nat) (s s' a : St L V) (hR : Rel s s')
+    (h : step N p s = some a) : (∃ a', step N' p s' = some a' ∧ Rel a a') ∨ Rel a s' := by
+  obtain ⟨c, ps1, cs1, hc, hf, rfl⟩ := step_some N p s a h
+  obtain ⟨hch, hpr⟩ := hR
+  obtain ⟨hl, hpd⟩ := hpr p
+  have hR : Rel s s' := ⟨hch, hpr⟩
+  cases hp : (s.procs p).2 with
+  | some c0 =>
+    -- a hand-over wait
+    have hop : opOf N p (s.procs p) = .sync c0 := by unfold opOf; simp [hp]
+    rw [hop] at hc hf
+    simp only [Op.chan, Option.some.injEq] at hc; subst hc
+    rcases hcs : s.chans c0 with ⟨qq, cl⟩
+    cases qq with
+    | cons x r => simp [Op.fire, hcs] at hf
+    | nil =>
+      simp only [Op.fire, hcs, Option.some.injEq, Prod.mk.injEq] at hf
+      obtain ⟨rfl, rfl⟩ := hf
+      rcases hpd with e | e
+      · left
+        have hop' : opOf N' p (s'.procs p) = .sync c0 := by unfold opOf; simp [e, hp]
+        refine ⟨⟨upd s'.procs p ((s'.procs p).1, none), upd s'.chans c0 ([], cl)⟩, ?_, ?_⟩
+        · apply step_of N' p s' c0
+          · simp [hop', Op.chan]
+          · simp [hop', Op.fire, hch, hcs]
+        · exact rel_upd s s' hR p c0 _ _ _ hl (Or.inl rfl)
+      · right
+        refine ⟨?_, ?_⟩
+        · simp only [hch]; funext k; simp only [upd]; split
+          · rename_i hk; subst hk; exact hcs
+          · rfl
+        · intro q
+          by_cases hq : q = p
+          · subst hq; simp [upd_same, hl, e]
+          · simp only [upd_other _ _ _ _ hq]; exact hpr q
+  | none =>
+    have e : (s'.procs p).2 = none := by rcases hpd with e | e; exact e.trans hp; exact e
+    have hop' : opOf N' p (s'.procs p) = opOf N p (s.procs p) := by
+      unfold opOf; simp only [e, hp, hl, hL.act_eq]
+    left
+    -- the same operation fires with the larger capacity, with at most a dropped wait
+    have hfire : ∃ ps1', (opOf N p (s.procs p)).fire (N'.cap c) (s.procs p).1 (s.chans c) = some (ps1', cs1) ∧
+        ps1'.1 = ps1.1 ∧ (ps1'.2 = ps1.2 ∨ ps1'.2 = none) := by
+      cases ho : opOf N p (s.procs p) with
+      | rd c1 k => rw [ho] at hf; exact ⟨ps1, by rw [fire_rd_cap _ (N.cap c)]; exact hf, rfl, Or.inl rfl⟩
+      | cls c1 k => rw [ho] at hf; exact ⟨ps1, by rw [fire_cls_cap _ (N.cap c)]; exact hf, rfl, Or.inl rfl⟩
+      | snd c1 v k =>
+        rcases hcs : s.chans c with ⟨qq, cl⟩
+        rw [ho, hcs] at hf
+        cases cl
+        · simp only [Op.fire] at hf ⊢
+          split at hf
+          · rename_i hlen
+            simp only [Option.some.injEq, Prod.mk.injEq] at hf
+            obtain ⟨rfl, rfl⟩ := hf
+            have hcap := hL.cap_le c
+            have : qq.length < max 1 (N'.cap c) := by omega
+            simp only [this, if_true]
+            refine ⟨_, rfl, rfl, ?_⟩
+            by_cases h0 : N'.cap c = 0
+            · have : N.cap c = 0 := by omega
+              simp [h0, this]
+            · simp [h0]
+          · simp at hf
+        · simp [Op.fire] at hf
+      | sync c1 => unfold opOf at ho; simp only [hp] at ho; split at ho <;> simp at ho
+      | halt => rw [ho] at hc; simp [Op.chan] at hc
+    obtain ⟨ps1', hf', h1, h2⟩ := hfire
+    refine ⟨⟨upd s'.procs p ps1', upd s'.chans c cs1⟩, ?_, rel_upd s s' hR p c _ _ _ h1 h2⟩
+    apply step_of N' p s' c
+    · rw [hop']; exact hc
+    · rw [hop', hl, hch]; exact hf'
+
+/-- **Capacity monotonicity**: every run with the small capacities is matched by a run with the larger ones
+    that ends in the same queues and local states -/
+theorem capacity_mono (N N' : Network L V) (hL : Larger N N') (t : List Nat) (s s' e : St L V) (hR : Rel s s')
+    (h : run N t s = some e) : ∃ t' e', run N' t' s' = some e' ∧ Rel e e' ∧ t'.length ≤ t.length := by
+  induction t generalizing s s' with
+  | nil => simp only [run, Option.some.injEq] at h; subst h; exact ⟨[], s', rfl, hR, by simp⟩
+  | cons p rest ih =>
+    simp only [run] at h
+    cases hp : step N p s with
+    | none => simp [hp] at h
+    | some a =>
+      simp only [hp, Option.bind_some] at h
+      rcases step_sim N N' hL p s s' a hR hp with ⟨a', ha', hRa⟩ | hRa
+      · obtain ⟨t', e', hr, hRe, hl⟩ := ih a a' hRa h
+        exact ⟨p :: t', e', by simp [run, ha', hr], hRe, by simp; omega⟩
+      · obtain ⟨t', e', hr, hRe, hl⟩ := ih a s' hRa h
+        exact ⟨t', e', hr, hRe, by simp; omega⟩
+
+theorem rel_allHalted (N N' : Network L V) (hL : Larger N N') (e e' : St L V) (hR : Rel e e')
+    (h : AllHalted N e) : AllHalted N' e' := by
+  intro p
+  obtain ⟨h1, h2⟩ := h p
+  obtain ⟨hl, hpd⟩ := hR.2 p
+  refine ⟨by rcases hpd with x | x; exact x.trans h1; exact x, ?_⟩
+  rw [hL.act_eq, hl]; exact h2
+
+/-- **A clean termination observed with small buffers holds for every larger buffering and every schedule**: all
+    schedules of the larger network that run to a terminal state end with every process finished, in the same local
+    states (same delivered values) and queues -/
+theorem clean_termination_for_larger_capacities (N N' : Network L V) (hO' : Owned N') (hL : Larger N N')
+    (t : List Nat) (s e : St L V) (hW' : WF N' s) (h : run N t s = some e) (hH : AllHalted N e)
+    (t2 : List Nat) (e2 : St L V) (h2 : run N' t2 s = some e2) (hT2 : Terminal N' e2) :
+    AllHalted N' e2 ∧ e2.chans = e.chans ∧ ∀ p, (e2.procs p).1 = (e.procs p).1 := by
+  obtain ⟨t', e', hr, hRe, _⟩ := capacity_mono N N' hL t s s e (rel_refl s) h
+  have hH' := rel_allHalted N N' hL e e' hRe hH
+  obtain ⟨rfl, _⟩ := terminal_unique N' hO' t' t2 s e' e2 hW' hr (allHalted_terminal N' e' hH') h2 hT2
+  exact ⟨hH', hRe.1, fun p => (hRe.2 p).1⟩
+
+/-! ### a concrete network of the class: Duplicate → Operate → Operate with inputs of unequal length -/
+
+open NetM in
+theorem diamondNet_owned (fixed : Bool) (cap : Nat) : Owned (diamondNet fixed cap) := by
+  constructor
+  · intro p l c k h
+    simp only [diamondNet] at h ⊢
+    split at h
+    · simp only [producer] at h; split at h <;> simp at h
+    · simp only [producer] at h; split at h <;> simp at h
+    · simp only [dup2] at h; split at h <;> simp at h; obtain ⟨rfl, _⟩ := h; rfl
+    · cases fixed
+      · simp only [operateOld, Bool.false_eq_true, if_false] at h
+        split at h <;> simp at h <;> (obtain ⟨rfl, _⟩ := h; rfl)
+      · simp only [operateNew, if_true] at h
+        split at h <;> simp at h <;> (obtain ⟨rfl, _⟩ := h; rfl)
+    · cases fixed
+      · simp only [operateOld, Bool.false_eq_true, if_false] at h
+        split at h <;> simp at h <;> (obtain ⟨rfl, _⟩ := h; rfl)
+      · simp only [operateNew, if_true] at h
+        split at h <;> simp at h <;> (obtain ⟨rfl, _⟩ := h; rfl)
+    · simp only [sink] at h; split at h <;> simp at h; obtain ⟨rfl, _⟩ := h; rfl
+    · simp at h
+  · intro p l c v k h
+    simp only [diamondNet] at h ⊢
+    split at h
+    · simp only [producer] at h; split at h <;> simp at h; obtain ⟨rfl, _⟩ := h; rfl
+    · simp only [producer] at h; split at h <;> simp at h; obtain ⟨rfl, _⟩ := h; rfl
+    · simp only [dup2] at h; split at h <;> simp at h <;> (obtain ⟨rfl, _⟩ := h; rfl)
+    · cases fixed
+      · simp only [operateOld, Bool.false_eq_true, if_false] at h
+        split at h <;> simp at h; obtain ⟨rfl, _⟩ := h; rfl
+      · simp only [operateNew, if_true] at h
+        split at h <;> simp at h; obtain ⟨rfl, _⟩ := h; rfl
+    · cases fixed
+      · simp only [operateOld, Bool.false_eq_true, if_false] at h
+        split at h <;> simp at h; obtain ⟨rfl, _⟩ := h; rfl
+      · simp only [operateNew, if_true] at h
+        split at h <;> simp at h; obtain ⟨rfl, _⟩ := h; rfl
+    · simp only [sink] at h; split at h <;> simp at h
+    · simp at h
+  · intro p l c k h
+    simp only [diamondNet] at h ⊢
+    split at h
+    · simp only [producer] at h; split at h <;> simp at h; obtain ⟨rfl, _⟩ := h; rfl
+    · simp only [producer] at h; split at h <;> simp at h; obtain ⟨rfl, _⟩ := h; rfl
+    · simp only [dup2] at h; split at h <;> simp at h <;> (obtain ⟨rfl, _⟩ := h; rfl)
+    · cases fixed
+      · simp only [operateOld, Bool.false_eq_true, if_false] at h
+        split at h <;> simp at h; obtain ⟨rfl, _⟩ := h; rfl
+      · simp only [operateNew, if_true] at h
+        split at h <;> simp at h <;> (obtain ⟨rfl, _⟩ := h; rfl)
+    · cases fixed
+      · simp only [operateOld, Bool.false_eq_true, if_false] at h
+        split at h <;> simp at h; obtain ⟨rfl, _⟩ := h; rfl
+      · simp only [operateNew, if_true] at h
+        split at h <;> simp at h <;> (obtain ⟨rfl, _⟩ := h; rfl)
+    · simp only [sink] at h; split at h <;> simp at h
+    · simp at h
+
+open NetM in
+theorem diamondInit_wf (fixed : Bool) (cap : Nat) (as bs : List Int) : WF (diamondNet fixed cap) (diamondInit as bs) := by
+  intro p c h
+  simp only [diamondInit] at h
+  split at h <;> simp at h
+
+/-- with the Operate that drains before closing, inputs of lengths 3 and 1 deadlock on unbuffered channels
+    (terminal state, not every process finished, the reader got one value) … -/
+example : NetM.diamondRun false 0 [1, 2, 3] [10] = (true, false, [12], [0, 1, 0, 20, 0, 0]) := by decide
+/-- … with capacity 2 the same pipeline happens to terminate (deadlocks depend on capacities, outputs do not) … -/
+example : NetM.diamondRun false 2 [1, 2, 3] [10] = (true, true, [12], [1, 1, 5, 31, 31, 1]) := by decide
+/-- … and with the repaired Operate it terminates cleanly on unbuffered channels (hence, by
+    `clean_termination_for_larger_capacities`, for every capacity and every schedule) -/
+example : NetM.diamondRun true 0 [1, 2, 3] [10] = (true, true, [12], [1, 1, 5, 31, 31, 1]) := by decide
+
 end C03
